@@ -82,6 +82,10 @@ def functions():
                 for m in n.body:
                     if isinstance(m, ast.FunctionDef):
                         out.append(Fn(mod, f"{n.name}.{m.name}", m, n.name))
+        # what a module does when it is imported (`env = jinja2.Environment(...)`) runs in every FORD run as well
+        top = [n for n in tree.body if not isinstance(n, (ast.FunctionDef, ast.ClassDef, ast.Import, ast.ImportFrom))]
+        if top:
+            out.append(Fn(mod, "<module>", ast.Module(body=top, type_ignores=[])))
     return out
 
 
@@ -255,6 +259,8 @@ def infer_param(fn, name, bases):
     """parameter contract of a *private* helper (`_name`, only ever called, never passed around): what every caller in the package passes.  The helper's writes are then
     confined because each call site's argument is - the obligation moves to the call sites, as for the declared PARAM_CONTRACTS.  None: not a parameter / not private /
     no callers / referenced other than by a call."""
+    if not hasattr(fn.node, "args"):
+        return None
     a = fn.node.args
     params = [x.arg for x in a.posonlyargs + a.args]
     simple = fn.qual.split(".")[-1]
@@ -323,10 +329,10 @@ def sites():
                 out.append((fn, c, c.args[0], "graphviz render"))
             elif isinstance(f, ast.Name) and f.id == "open" and len(c.args) >= 2 and isinstance(c.args[1], ast.Constant) and any(ch in str(c.args[1].value) for ch in "wax+"):
                 out.append((fn, c, c.args[0], "open(.., 'w')"))
-            elif ((isinstance(f, ast.Attribute) and isinstance(f.value, ast.Name) and f.value.id == "tempfile") or isinstance(f, ast.Name)) and \
-                    (f.attr if isinstance(f, ast.Attribute) else f.id) in ("NamedTemporaryFile", "TemporaryFile", "SpooledTemporaryFile", "TemporaryDirectory", "mkstemp", "mkdtemp"):
+            elif ((isinstance(f, ast.Attribute) and isinstance(f.value, ast.Name) and f.value.id in ("tempfile", "jinja2")) or isinstance(f, ast.Name)) and \
+                    (f.attr if isinstance(f, ast.Attribute) else f.id) in ("NamedTemporaryFile", "TemporaryFile", "SpooledTemporaryFile", "TemporaryDirectory", "mkstemp", "mkdtemp", "FileSystemBytecodeCache"):
                 # a temporary file is a file: it is created in `dir=` - without one, in the system's temp directory, which is not the output directory
-                d = next((k.value for k in c.keywords if k.arg == "dir"), None)
+                d = next((k.value for k in c.keywords if k.arg in ("dir", "directory")), c.args[0] if (f.attr if isinstance(f, ast.Attribute) else f.id) == "FileSystemBytecodeCache" and c.args else None)
                 out.append((fn, c, d if d is not None else ast.Constant(value="/<system temp directory>"), f"tempfile.{f.attr if isinstance(f, ast.Attribute) else f.id}"))
             elif isinstance(f, ast.Attribute) and f.attr in ("remove", "makedirs", "mkdir", "rename", "unlink") and isinstance(f.value, ast.Name) and f.value.id == "os" and c.args:
                 out.append((fn, c, c.args[0], f"os.{f.attr}"))
@@ -508,6 +514,18 @@ def refusal_obligations(prop="C19"):
                   target="ford.parse_arguments", desc="normalise_paths() runs before the refusal check"))
     out += output_dir_excluded(prop)
     out.append(normalise_path_resolves(prop, "the refusal compares such paths component-wise"))
+    # the two roots are path-typed settings: normalise_paths makes exactly the Path / List[Path] options absolute relative to the project file; anything else stays a string
+    # that is later read relative to the working directory
+    st = loader.find_def("ford.settings", "ProjectSettings")
+    ann = {n.target.id: ast.unparse(n.annotation) for n in st.body if isinstance(n, ast.AnnAssign) and isinstance(n.target, ast.Name)}
+    for opt in ("output_dir", "graph_dir"):
+        ok = "Path" in ann.get(opt, "")
+        r = OR(id=f"{prop}.S.settings.{opt}.is_a_path_option", status=PROVED if ok else REFUTED, kind="S", role="pre", backend="ast", target="ford.settings.ProjectSettings",
+               desc=f"`{opt}: {ann.get(opt, '<missing>')}`: declared as a path, hence made absolute relative to the project file by normalise_paths")
+        if not ok:
+            r.witness = {"annotation": ann.get(opt)}
+            r.detail = f"{opt} stays as written and is resolved against the working directory: files are written outside the configured directory when FORD is started elsewhere"
+        out.append(r)
     return out
 
 
